@@ -5,38 +5,92 @@ package context
 
 // Contracts for package context (consumed by /verif/govc; comment-only file).
 
+//@ decl DataContext.base guarded_by lockBase
+
+// ---------------------------------------------------------------------------
+// name resolution (C03, C15): a name that is injected always denotes the injected object; only otherwise the
+// rule's local; a simple name that is neither is an error. Every access to base / Vars is under its lock (C19).
+
 //@ func (*DataContext).GetValue
-//@   props C03 C15
-//@   ensures result.1 != nil ==> result.0 == RV_zero()
+//@   props C03 C15 C19
+//@   entry nolocks
+//@   requires dc != nil
+//@   guard Vars by dc.lockVars
+//@   ensures [C03] injectedfirst: !strContains(variable, ".") && (variable in dc.base) ==> result.1 == nil && result.0 == dc.base[variable]
+//@   ensures [C15] localsecond: !strContains(variable, ".") && !(variable in dc.base) && Vars != nil && (variable in Vars) ==> result.1 == nil && result.0 == Vars[variable]
+//@   ensures [C15] notfound: !strContains(variable, ".") && !(variable in dc.base) && (Vars == nil || !(variable in Vars)) ==> result.1 != nil && result.0 == RV_zero()
+//@   ensures errzero: result.1 != nil ==> result.0 == RV_zero()
 //@   modifies nothing
-//@   trusted data context contracts pending
 
 //@ func (*DataContext).SetValue
-//@   props C03 C15
-//@   ensures true
+//@   props C03 C15 C19
+//@   entry nolocks
+//@   requires dc != nil && Vars != nil
+//@   guard Vars by dc.lockVars
+//@   ghost wrote int = 0
+//@   oncall core.SetSingleValue
+//@     assert [C03] injectedwins: !strContains(variable, ".") && (variable in dc.base) && arg0 == dc.base[variable] && arg2 == newValue
+//@     after wrote := wrote + 1
+//@   ensures [C15] localbound: !strContains(variable, ".") && !old(variable in dc.base) ==> result == nil && (variable in Vars) && Vars[variable] == newValue && wrote == 0
+//@   ensures [C15] otherlocals: !strContains(variable, ".") ==> forall k: string :: k != variable ==> (k in Vars) == old(k in Vars) && Vars[k] == old(Vars[k])
+//@   ensures [C03] nolocalshadow: !strContains(variable, ".") && old(variable in dc.base) ==> wrote == 1 && (variable in Vars) == old(variable in Vars)
 //@   modifies frame evalframe
-//@   trusted data context contracts pending
+
+//@ func (*DataContext).Get
+//@   props C03 C19
+//@   entry nolocks
+//@   requires dc != nil
+//@   ensures (key in dc.base) ==> result.1 == nil && result.0 == dc.base[key]
+//@   ensures !(key in dc.base) ==> result.1 != nil
+//@   modifies nothing
+
+//@ func (*DataContext).Add
+//@   props C06 C19
+//@   entry nolocks
+//@   requires dc != nil && dc.base != nil
+//@   ensures dom(dc.base) == setadd(old(dom(dc.base)), key)
+//@   ensures forall k: string :: k != key ==> dc.base[k] == old(dc.base[k])
+//@   modifies mapcontents(dc.base)
+//@   nopanic
+
+//@ func (*DataContext).Del
+//@   props C06 C19
+//@   entry nolocks
+//@   requires dc != nil
+//@   ensures forall k: string :: (k in dc.base) ==> old(k in dc.base)
+//@   ensures forall qi :: lo(keys) <= qi && qi < hi(keys) ==> !(at(keys, qi) in dc.base)
+//@   ensures forall k: string :: old(k in dc.base) && !(k in dc.base) ==> exists qi :: lo(keys) <= qi && qi < hi(keys) && at(keys, qi) == k
+//@   ensures forall k: string :: (k in dc.base) ==> dc.base[k] == old(dc.base[k])
+//@   modifies mapcontents(dc.base)
+//@   loopwrites dc.base
+//@   nopanic
+//@   loop 0 invariant held: held(dc.lockBase)
+//@   loop 0 invariant sub: forall k: string :: (k in dc.base) ==> old(k in dc.base) && dc.base[k] == old(dc.base[k])
+//@   loop 0 invariant gone: forall qi :: lo(keys) <= qi && qi <= lo(keys) + rangeindex ==> !(at(keys, qi) in dc.base)
+//@   loop 0 invariant only: forall k: string :: old(k in dc.base) && !(k in dc.base) ==> exists qi :: lo(keys) <= qi && qi <= lo(keys) + rangeindex && at(keys, qi) == k
+//@   loop 0 invariant idx: -1 <= rangeindex && rangeindex < len(keys)
+//@   loop 0 decreases len(keys) - rangeindex
 
 //@ func (*DataContext).SetMapVarValue
 //@   props C03
 //@   ensures true
 //@   modifies frame evalframe
-//@   trusted data context contracts pending
+//@   trusted container contracts pending
 
 //@ func (*DataContext).ExecFunc
 //@   props C03
 //@   ensures true
 //@   modifies frame evalframe
-//@   trusted data context contracts pending
+//@   trusted call contracts pending
 
 //@ func (*DataContext).ExecMethod
 //@   props C03
 //@   ensures true
 //@   modifies frame evalframe
-//@   trusted data context contracts pending
+//@   trusted call contracts pending
 
 //@ func (*DataContext).ExecThreeLevel
 //@   props C03
 //@   ensures true
 //@   modifies frame evalframe
-//@   trusted data context contracts pending
+//@   trusted call contracts pending
